@@ -38,14 +38,21 @@ CFG = {'streams': [{'name': 'C07',
          'records during rendering the intended location of every located construct and compares the parsed AST with the intended one. Layout: '
          'between any two tokens a gap over space, tab, LF, CR and ; comments (any text incl. multi-byte, {, ", ;), empty where the parser allows it '
          '(never between two identifier characters, never inside @name/#name/$n, `inherit .name`, global NAME+quantifier; after a global NAME '
-         'without quantifier exactly a whitespace character first); optional trailing comma in non-empty list/set literals. Texts <= 1500 '
-         'characters. non-trivial = parses, contains a comment or a multi-byte character and at least 3 statements; distinct by hash of the text. '
-         'stream C05p: up to 2/5 hand-written edge cases (empty / whitespace-only / comment-only input, `global x` followed by every character '
-         'class, inherit / shorthand / statement / expression / stanza fragments for every ParseError variant, query errors on first and later rows '
-         'with leading text, brackets/calls/blocks/scoped chains nested 1-64 deep), the rest valid texts of both sources with 1-3 mutations: token '
-         'delete/duplicate/swap, stray delimiters, truncation, huge integers and $-indices (2^32, 2^64-1, 2^64, 23 digits), NUL and non-ASCII '
-         'characters (é, U+00A0, U+2028, U+3000, U+000B, 日, U+FF10, U+0661), near-miss keywords, top-level keywords in front of a stanza, deep '
-         'nesting, queries with two patterns, invalid queries, invalid scan regexes, bad #literals/@captures',
+         'without quantifier ANY gap, also none - `global x="a"`, `global x;c`, `global x(module) ...`, `global x` at the end of the input - except '
+         'that a following identifier character or `?` `*` `+` is kept apart: layouts the repaired parse_quantifier accepts, tags global-name-glued '
+         '/ global-name-then-comment / global-name-at-eof / global:name-then-eq / global:quant-then-eq); optional trailing comma in non-empty '
+         'list/set literals. Every run starts with 13 hand-written valid texts (FIXED_VALID, tag src:fixed: `global x="a"`, `global x;c`, `global x= '
+         '"a"`, `global x?="a"`, `global x` directly followed by a newline / a comment / a stanza / the end of the file). Texts <= 1500 characters. '
+         'non-trivial = parses, contains a comment or a multi-byte character and at least 3 statements; distinct by hash of the text. stream C05p: '
+         'up to 2/5 hand-written edge cases (empty / whitespace-only / comment-only input, `global x` followed by every character class (incl. the '
+         'formerly ExpectedQuantifier texts `global x!`, `global x=x`, `global x! (module) @m { }`, `global x"a" ...`: the repaired parser leaves '
+         'the character to the caller, so they now end in UnexpectedEOF at the end of the input, ExpectedToken("\\""), or a QueryError for the query '
+         'text that starts at that character - or parse, e.g. `global x-` is the name `x-`), inherit / shorthand / statement / expression / stanza '
+         'fragments for every ParseError variant, query errors on first and later rows with leading text, brackets/calls/blocks/scoped chains nested '
+         '1-64 deep), the rest valid texts of both sources with 1-3 mutations: token delete/duplicate/swap, stray delimiters, truncation, huge '
+         'integers and $-indices (2^32, 2^64-1, 2^64, 23 digits), NUL and non-ASCII characters (é, U+00A0, U+2028, U+3000, U+000B, 日, U+FF10, '
+         'U+0661), near-miss keywords, top-level keywords in front of a stanza, deep nesting, queries with two patterns, invalid queries, invalid '
+         'scan regexes, bad #literals/@captures',
  'explanation': 'Theorems (Props/C07.v, all universally quantified, Closed under the global context): location_advance / st_after_position '
                 '(consuming ANY text: offset = sum of UTF-8 lengths, row = number of newlines, column = characters since the last newline); '
                 'whitespace_skip_spec (exactly the maximal prefix of whitespace and ; comments); string_literal_roundtrip (every legal escape '
@@ -54,15 +61,21 @@ CFG = {'streams': [{'name': 'C07',
                 'parse_render_expr (round trip incl. all locations for all 14 expression forms under arbitrary layouts: gaps, trailing commas, '
                 'literal spellings) + layout_irrelevant_expr; parse_render_stmt and parse_render_block (round trip for all 11 statement forms, '
                 'attribute lists, condition lists, if/elif/else location bookkeeping, scan arms numbered in order of appearance, blocks nested to '
-                'any depth); parse_render_file (whole files: globals with quantifier/default, inherit, shorthands, stanzas with opaque query text up '
-                'to the first `{` outside strings/comments, every location, scan arms numbered in order of appearance; result = file_of_items of the '
-                'located items, patterns in order); unicode_sane_from_tables. Props/C05parse.v: parse_total, parse_never_out_of_fuel (fuel S(length '
-                'text)), with witnesses that the two tree-sitter-dependent panic sites are reachable if tree-sitter misbehaves. Correspondence: the '
-                'real parser under catch_unwind and a wall clock vs parse of Model/Parser.v (vm_compute) with tree-sitter, the regex crate and the '
-                'Unicode tables as per-case oracle tables keyed by what the MODEL asks for (byte span of its own skip_query, merged query source, '
-                'decoded scan pattern); compared: the whole AST including every location, the scan patterns, or the error variant + location + '
-                'payload. Mutants of the MODEL (column kept after newline; trailing comma rejected; `some` matched by prefix) are all detected by '
-                'the streams (193/200, 27/200, 1/200 differing cases before the generator was biased towards some*/none* conditions).',
+                'any depth); parse_render_file (whole files: globals - NAME, quantifier character directly after it, optional default with ARBITRARY '
+                'gaps (also none) around `=` and behind the item: `global x="a"`, `global x;c`, `global x` + end of input are covered, see partial '
+                '(b) - inherit, shorthands, stanzas with opaque query text up to the first `{` outside strings/comments, every location, scan arms '
+                'numbered in order of appearance; result = file_of_items of the located items, patterns in order); unicode_sane_from_tables. '
+                'Props/C05parse.v: parse_total, parse_never_out_of_fuel (fuel S(length text)), with witnesses that the two tree-sitter-dependent '
+                'panic sites are reachable if tree-sitter misbehaves; parse_never_expected_quantifier + parse_quantifier_never_fails '
+                '(ParseError::ExpectedQuantifier is dead code after the repair of parse_quantifier: the model never produces variant 1). Regression '
+                'Examples in Props/C07.v: ex_global_default_without_space (`global x="a"` LF `(m) {}` = global x, One, default "a", at (0,7)), '
+                'ex_global_comment_without_space, ex_global_eq_then_space, ex_global_quantifier_then_eq, ex_file_tight_roundtrip (parse_render_file '
+                'applied to the layout without any gap: `global x="a"global y(m){}global z`). Correspondence: the real parser under catch_unwind and '
+                'a wall clock vs parse of Model/Parser.v (vm_compute) with tree-sitter, the regex crate and the Unicode tables as per-case oracle '
+                'tables keyed by what the MODEL asks for (byte span of its own skip_query, merged query source, decoded scan pattern); compared: the '
+                'whole AST including every location, the scan patterns, or the error variant + location + payload. Mutants of the MODEL (column kept '
+                'after newline; trailing comma rejected; `some` matched by prefix) are all detected by the streams (193/200, 27/200, 1/200 differing '
+                'cases before the generator was biased towards some*/none* conditions).',
  'assumptions': ['tree-sitter (Query::new on each stanza query + "@__tsg__full_match" and on the merged source), Regex::new and '
                  'char::is_alphabetic/is_alphanumeric/is_whitespace on non-ASCII characters are externals of the model; the harness records their '
                  'answers per case, found by an untrusted structure-only port of parser.rs; a missing answer is verdict 5, never an agreement',
@@ -72,10 +85,17 @@ CFG = {'streams': [{'name': 'C07',
  'partial': ['none of the listed theorems is partial: parse_render_file is proved for whole files. Stated limits of its hypotheses (not weakenings '
              'of the parser model): (a) layouts of the theorems are slightly narrower than what the parser accepts - a gap is forced non-empty '
              'between a token ending and a token starting with an identifier character, so merges that the parser would still read correctly '
-             '(`(f)x`, `forx`, `global x` directly followed by the next item when it cannot merge) are not claimed; the correspondence stream does '
-             'generate them; (b) a global without quantifier is written with exactly one of space/tab/LF/CR after its name; (c) shorthand names may '
-             'repeat (the result is then the map file_of_items computes: the later definition wins), the `vtext` of node statements (Display text, '
-             'not parser output) is [] in the model and erased in the comparison',
+             '(`(f)x`, `forx`) are not claimed; the correspondence stream does generate them (for a global this is now exact: behind a name without '
+             'quantifier and default only a following identifier character or `?` `*` `+` forces a gap - Spec/Render.v next_clash - which is what '
+             'the parser needs: the former would continue the name, the latter would be read as the quantifier); (b) NO restriction on the '
+             'whitespace after a global\'s name remains (the former "exactly one of space/tab/LF/CR after the name of a global without quantifier" '
+             'mirrored a defect of parse_quantifier that has been repaired in parser.rs; model, spec and theorem were brought back to full '
+             'strength); what remains for globals is only WfItem: the name is an identifier and the quantifier is not Zero (which cannot be '
+             'written), and WfQuery for the stanza that may follow: its query text does not begin with `=` `,` `.` (after `global x` a `=` would '
+             'start the default in ANY layout - not whitespace sensitivity -, the other two would continue an attribute list / a scoped variable of '
+             'a preceding shorthand), with a top-level keyword, whitespace or `;`; (c) shorthand names may repeat (the result is then the map '
+             'file_of_items computes: the later definition wins), the `vtext` of node statements (Display text, not parser output) is [] in the '
+             'model and erased in the comparison',
              'hypothesis UnicodeSane (whitespace characters are not identifier characters) is about the external Unicode tables; it is checked on '
              'the table of every correspondence case (uni_sane, a violation is ORACLE_MISS); hypotheses queries_ok / x_merged of parse_render_file '
              'are what tree-sitter answers, recorded per case']}
